@@ -8,6 +8,7 @@ def score_case(rnd, rule, n=None):
     n = n or rnd.randint(1, 6)
     m = rnd.randint(1, n)
     cfg = {"rule": rule, "m": m, "tiebreak": rnd.choice([None, "random"])}
+    cfg["numtype"] = rnd.choice(["int", "float", "fraction"])  # how the limits L / k are handed over (same number)
     if rule == "Rating":
         L = rnd.choice([1, 2, 3, 5, F(5, 2)])
         cfg["L"] = canon.fs(F(L))
